@@ -14,6 +14,7 @@ Oracle     : no exception; non-empty str; no residual '{' or '}'; the phrase equ
 """
 from __future__ import annotations
 
+import collections
 import importlib
 import itertools
 import re
@@ -144,6 +145,7 @@ def check_unit_count(acc, pendulum, loc, unit, k):
     comps = [0] * 7
     comps[UNITS.index(unit)] = k
     kw = {unit + "s": k}
+    seen = {}
     for future in (False, True):
         if unit in ("year", "month"):
             dur = pendulum.Duration(**kw)
@@ -165,9 +167,72 @@ def check_unit_count(acc, pendulum, loc, unit, k):
                 r = basic(acc, "format_diff", loc, case, lambda: pendulum.format_diff(dur, is_now, absolute, loc))
                 if r is None:
                     continue
+                seen[(is_now, absolute, future)] = r
                 ok = acceptable(d, comps, is_now, future, absolute)
                 if ok and r not in ok:
                     acc.mismatch("format_diff", f"{loc}/phrase", case, r, sorted(ok))
+    # the direction must be readable from the phrase: earlier and later may not render alike
+    for is_now in (True, False):
+        p, f = seen.get((is_now, False, False)), seen.get((is_now, False, True))
+        acc.c["evaluations"] += 1
+        if p is not None and p == f and k:
+            acc.mismatch("format_diff", f"{loc}/direction-indistinguishable",
+                         {"kind": "uc", "loc": loc, "unit": unit, "k": k, "now": is_now}, p, "different phrases for earlier and later")
+
+
+def _marker_parts(t):
+    """(text before the count, last word - or last character where the script has no spaces - of the rest)."""
+    m = re.search(r"\{[^}]*\}", t)
+    pre, post = (t[:m.start()], t[m.end():]) if m else ("", t)
+    post = post.strip()
+    tail = (post.split()[-1] if " " in post else post[-1:]) if post else ""
+    return pre.strip(), tail
+
+
+def direction_markers(d):
+    """The direction marker a locale uses for 'future' and for 'past' in its now-relative phrases, found by
+    majority over all its (unit, plural class) templates: ('pre'|'tail', text) or None.  Derived from the tree's own
+    data, so a locale may use any marker it likes; what is asserted is that a direction uses ONE marker throughout
+    and that the two directions use different ones."""
+    out = {}
+    for direction in ("future", "past"):
+        ts = []
+        for unit in UNITS:
+            node = look(d, f"translations.relative.{unit}.{direction}")
+            if isinstance(node, dict):
+                ts += [(unit, pc, t) for pc, t in node.items() if "{" in t]
+        best = None
+        for kind, idx in (("pre", 0), ("tail", 1)):
+            cnt = collections.Counter(_marker_parts(t)[idx] for _, _, t in ts)
+            cnt.pop("", None)
+            if cnt:
+                text, n = cnt.most_common(1)[0]
+                if n * 10 >= len(ts) * 6 and (best is None or n > best[2]):
+                    best = (kind, text, n)
+        out[direction] = (best[:2] if best else None, ts)
+    return out
+
+
+def check_direction_data(acc, loc):
+    """Every now-relative template of a direction carries that direction's marker; the two markers differ."""
+    d = data(loc)
+    mk = direction_markers(d)
+    acc.c["evaluations"] += 1
+    (mf, tf), (mp, tp) = mk["future"], mk["past"]
+    if mf is None or mp is None:
+        acc.c["direction_marker_undetermined"] += 1
+        return
+    if mf == mp:
+        acc.mismatch("locale-data", f"{loc}/same-marker-both-directions", {"kind": "dir", "loc": loc}, list(mf), "distinct markers")
+    for direction, (kind, text), ts in (("future", mf, tf), ("past", mp, tp)):
+        for unit, pc, t in ts:
+            acc.c["evaluations"] += 1
+            acc.c["transitions"] += 1
+            part = _marker_parts(t)[0 if kind == "pre" else 1]
+            if part != text and not (kind == "pre" and part.startswith(text + " ")):
+                acc.mismatch("locale-data", f"{loc}/{direction}-template-without-marker",
+                             {"kind": "dir", "loc": loc, "unit": unit, "plural": pc, "direction": direction}, t,
+                             f"{direction} marker {text!r} ({kind}) as in the locale's other {direction} templates")
 
 
 def kf_negative_duration(dur, r, d, is_now, absolute):
@@ -456,6 +521,7 @@ def run_shard(shard):
                        {"seconds": -30}, {"minutes": -1, "seconds": -5}, {"days": 2}, {"years": 1, "days": -1}):
                 check_negative_duration(acc, pendulum, loc, kw)
             check_date_time(acc, pendulum, loc)
+            check_direction_data(acc, loc)
             check_tokens(acc, pendulum, loc)
             check_histories(acc, pendulum, loc)
             acc.c["nontrivial"] += 1
@@ -487,6 +553,8 @@ def replay_case(case, acc):
         check_negative_duration(acc, pendulum, case["loc"], case["kw"])
     elif k == "dt":
         check_date_time(acc, pendulum, case["loc"])
+    elif k == "dir":
+        check_direction_data(acc, case["loc"])
     elif k == "tok":
         check_tokens(acc, pendulum, case["loc"])
     elif k == "hist":
@@ -517,10 +585,13 @@ def evidence(m, tier, seed):
         "rule": "27 locales x {year, week: counts 0..1000 (quick: 0..130 and every 7th above); month 0..11; day 0..6; hour "
                 "0..23; minute, second 0..59} x {now, other} x {past, future} x {absolute}; in_words for every subset of 8 "
                 "Duration components x sign x 27 locales; 20 locale tokens x 12 months x 7 weekdays x am/pm x 27 locales; "
-                "call-order histories (all orderings of 2 and 3 of 5 calls) per locale on a cold cache; all ordered pairs "
+                "per locale, every now-relative template of a direction must carry the direction marker the majority of that "
+                "locale's templates carry and the two markers must differ; phrases for k units earlier and k units later "
+                "must differ; call-order histories (all orderings of 2 and 3 of 5 calls) per locale on a cold cache; all ordered pairs "
                 "of a 56-point instant set through diff_for_humans (other / now injected / absolute, explicit and global "
                 "locale) for 6+3 locales (thorough: all); non-trivial = distinct (locale, unit, CLDR plural class) combinations reached + locale batches",
         "exhaustive": True,
+        "direction_marker_undetermined": c["direction_marker_undetermined"],
     }, "assumptions": ["expected phrases are built from the locale's own data files (pendulum.locales.<loc>.locale)",
                        "magnitude: count in {k, k+1} of the largest non-zero unit, promotion to the next unit allowed - "
                        "the exact rounding thresholds are not documented and not asserted"]}
